@@ -275,6 +275,8 @@ def parse_fn_block(lines, i, tname=''):
                 cur = spec['sig']
             elif w[0] == 'head':
                 cur = spec['head']
+            elif w[0] == 'tail':
+                cur = spec.setdefault('tail', [])
             elif w[0] == 'loop':
                 k = int(w[1])
                 spec['loops'][k] = dict(iter=None, text=[], tmpl_line='%s:%d' % (tname, i + 1))
@@ -599,6 +601,12 @@ class Gen:
                                     tmpl_line=spec['tmpl_line'] + '#run_rel'))
         if spec['head']:
             ann(bo if closure_mode else bo + 1, spec['head'], 'ghost', 'head')
+        if spec.get('tail') and not closure_mode:
+            # A6 tail ghost block (insertions only): `{ B }` becomes `{ let __r = { B }; <ghost>; __r }` so that one
+            # proof block can follow the value of the body; `return` statements inside B bypass it
+            eds.append((bo + 1, bo + 1, '\nlet __r = {\n', 'A6', ('ann', fnname, 'tail.open')))
+            tbody = self.clause_lines(fnname, 'ghost', spec['tail'], props)
+            eds.append((bc, bc, '\n};\n' + '\n'.join(tbody) + '\n__r\n', 'A6', ('ann', fnname, 'tail', ['', ''] + self._last_tls + ['', ''])))
         # loops
         loops = find_loops(mask, bo, bc)
         for k, lspec in spec['loops'].items():
